@@ -482,7 +482,9 @@ def e_span(run, repo, max_states):
             if len(perms) > 720:
                 perms = perms[::len(perms) // 720 + 1]
             if not thorough and shape == (False, False, False):
-                perms = perms[::3]          # every (highest, lowest) pair of positions is still there several times
+                # quick tier: one ordering per (highest, lowest) pair of positions plus a sample of the others
+                perms = [extremes_at(nstates, a, b) for a in range(nstates) for b in range(nstates) if a != b] + \
+                    perms[::29]
         elif len(shape) > 3:
             perms = [extremes_at(nstates, a, b) for a in range(nstates) for b in range(nstates) if a != b]
         else:
@@ -514,11 +516,15 @@ def e_span(run, repo, max_states):
                             '%s=%s' % (k, sig(kw[k])) for k in sorted(kw))))
                     r.opaque_methods['get_G_state'] = G
                     rxns.append(r)
-                seq = Obj('seq', ci, attrs={'reactions': ListV(rxns)})
-                # the same sequence asked a second time (every third ordering; thorough tier: every one): in another
+                seq = I.construct(ci, [], {'reactions': ListV(rxns)}, name='seq')
+                if not isinstance(seq, Obj):
+                    run.fail('REF.span', 'Reactions.__init__', 'result', 'the sequence is not built: %s'
+                             % show(seq), owner.module, fn)
+                    continue
+                # the same sequence asked a second time (every eighth ordering; thorough tier: every one): in another
                 # unit, at another temperature and with the opposite ordering - nothing of the first answer survives
                 calls = [(('kJ/mol', 'eV', 'kcal/mol')[variant], 'T', perm)]
-                if thorough or pi % 3 == 0:
+                if thorough or pi % 8 == 0:
                     calls.append((('eV', 'kcal/mol', 'kJ/mol')[variant], 'T2', tuple(nstates - 1 - r_ for r_ in perm)))
                 for call, (units, Tname, pm) in enumerate(calls):
                     conds = ({'T': D.sym(Tname)},
@@ -652,8 +658,9 @@ def e_span(run, repo, max_states):
                           % (show(got, 160), show(want, 160)), m, upd[1] if upd else fn_i,
                           sample='Network(%s): span %s' % (lab, show(want, 100)))
     # conditions given per species (<name>_kwargs): in a state of several species each one is evaluated under its own
-    # conditions, and the span is taken over those energies
-    for units in (None, 'kJ/mol'):
+    # conditions and weighted with its own coefficient (equal and unequal ones), and the span is taken over those
+    # energies
+    for units, cY in itertools.product((None, 'kJ/mol'), (1, 2)):
         for order_name, base in (('pair state highest', {'A': 2, 'X': 10, 'Y': 20, 'B': 1}),
                                  ('pair state lowest', {'A': 50, 'X': 2, 'Y': 4, 'B': 60})):
             ranks = {}
@@ -666,32 +673,34 @@ def e_span(run, repo, max_states):
             def gname(nm, P, units=units, T_=D.sym('T')):
                 return species_name(nm, units, {'T': T_} if P is None else {'T': T_, 'P': P})
             for nm in ('A', 'X', 'Y', 'B'):
-                sp[nm] = species_stub(nm, {'elements': DictV({'Z': C(1 if nm in 'XY' else 2)})}, extra=('P',))
+                sp[nm] = species_stub(nm, {'elements': DictV({'Z': C(1 if nm in 'XY' else 1 + cY)})}, extra=('P',))
                 sp[nm].missing.add('reaction')
                 for k_, P in enumerate((None, pX, pY)):
                     ranks[gname(nm, P)] = base[nm] + k_
-            r1 = make_reaction(I, repo, 'pmutt.reaction.Reaction', [sp['A']], [C(1)], [sp['X'], sp['Y']], [C(1), C(1)],
+            r1 = make_reaction(I, repo, 'pmutt.reaction.Reaction', [sp['A']], [C(1)], [sp['X'], sp['Y']], [C(1), C(cY)],
                                None, None, name='r1')
-            r2 = make_reaction(I, repo, 'pmutt.reaction.Reaction', [sp['X'], sp['Y']], [C(1), C(1)], [sp['B']], [C(1)],
+            r2 = make_reaction(I, repo, 'pmutt.reaction.Reaction', [sp['X'], sp['Y']], [C(1), C(cY)], [sp['B']], [C(1)],
                                None, None, name='r2')
             net = I.construct(nci, [], {'reactions': ListV([r1, r2])}, name='net')
-            label = 'A = X + Y; X + Y = B, X_kwargs/Y_kwargs given, %s, units=%s' % (order_name, units)
+            eq_ = 'X + Y' if cY == 1 else 'X + %dY' % cY
+            label = 'A = %s; %s = B, X_kwargs/Y_kwargs given, %s, units=%s' % (eq_, eq_, order_name, units)
             if not isinstance(net, Obj):
                 run.fail('REF.span', 'Network.__init__', label, 'the network is not built: %s' % show(net), m, fn_i)
                 continue
-            states = [([sp['A']], [C(1)]), ([sp['X'], sp['Y']], [C(1), C(1)]), ([sp['B']], [C(1)])]
+            states = [([sp['A']], [C(1)]), ([sp['X'], sp['Y']], [C(1), C(cY)]), ([sp['B']], [C(1)])]
             path = ListV([I.call_function(m, s2s, [ListV(a_), ListV(list(b_))], {}) for a_, b_ in states])
             got = I.call_method(net, 'get_E_span', [], {'path': path, 'units': units, 'T': D.sym('T'),
                                                         'X_kwargs': DictV({'P': pX}), 'Y_kwargs': DictV({'P': pY})})
-            G = [D.sym(gname('A', None)), D.sym(gname('X', pX)) + D.sym(gname('Y', pY)), D.sym(gname('B', None))]
-            gv = [base['A'], base['X'] + 1 + base['Y'] + 2, base['B']]
+            G = [D.sym(gname('A', None)), D.sym(gname('X', pX)) + D.sym(gname('Y', pY)) * cY, D.sym(gname('B', None))]
+            gv = [base['A'], base['X'] + 1 + cY * (base['Y'] + 2), base['B']]
             imax, imin = gv.index(max(gv)), gv.index(min(gv))
             want = G[imax] - G[imin]
             if imax < imin:
                 want = want + G[-1] - G[0]
             n += 1
             run.check(isinstance(got, Rat) and got.eq(want), 'REF.span', 'network.get_state_quantity', label,
-                      'the span is %s, expected %s (each species of a state under its own conditions)'
+                      'the span is %s, expected %s (each species of a state under its own conditions, times its own '
+                      'coefficient)'
                       % (show(got, 200), show(want, 200)), m, m.functions.get('get_state_quantity') or fn2,
                       sample='Network(%s): span %s' % (label, show(want, 100)))
     return n
@@ -705,22 +714,30 @@ def check(run, repo):
         'grid values: every tabulated entry equals the reaction\'s delta G/RT at that grid point divided by its '
         'normalisation factor (times RT iff units are requested), and np.nanargmin is modelled as an uninterpreted '
         'arg-min that remembers its candidate list, which must be the column over the REACTIONS at each grid point, '
-        'identically in one and two dimensions; one diagram is also asked several times in a row (with and without '
-        'units, one and two parameters) and every answer, as well as the factors the diagram shows afterwards, is '
-        'decided against the factors given. Reactions.get_E_span and Network.get_E_span are interpreted under an '
+        'identically in one and two dimensions, and of the kind that skips undefined (NaN) energies; scan variables '
+        'are T, P, further keywords and the conditions of one species (<name>_kwargs with dictionaries as grid '
+        'values), in 1-D and on either 2-D axis; one diagram is also asked several times in a row (with and without '
+        'units, one and two parameters; requests that share scan variable, grid symbols and units and differ only in '
+        'the fixed conditions or leave a condition out; G_units passed and left to its documented default), two '
+        'diagrams are asked in turn inside one program, and every answer, as well as the factors each diagram shows '
+        'afterwards, is decided against the factors given and the conditions of the request itself; the grids and '
+        'condition dictionaries handed in are left alone. Reactions.get_E_span and Network.get_E_span are interpreted under an '
         'ordering oracle for every ordering of the state energies (sequences of 1-3 steps with and without transition '
-        'states; paths of 2-4 states): the span is highest minus lowest plus last minus first iff the highest state '
+        'states; longer sequences up to 8 steps for every pair of positions of the highest and the lowest state; a '
+        'sequence asked twice; paths of 2-4 states; states of several species with equal and unequal coefficients): the span is highest minus lowest plus last minus first iff the highest state '
         'comes before the lowest, of the state energies in the unit and under all the conditions asked for '
         '(temperature, pressure, per-species conditions; the uninterpreted energies are named by everything they '
         'are given); every network is asked a second time in the other unit, at another temperature and with the '
         'opposite ordering.')
     run.assumptions = ['np.nanargmin/argmin/argmax return the index of the extremum of the values they are given '
-                       '(first occurrence)']
-    run.undecided = ['NaN handling', 'ties between equal energies']
+                       '(first occurrence); np.nanargmin/nanargmax skip NaN entries, np.argmin/argmax answer with '
+                       'the first NaN entry']
+    run.undecided = ['the phase reported when the energies of ALL reactions are undefined at a grid point',
+                     'ties between equal energies']
     n = phase_diagrams(run, repo)
-    run.floor('phase diagram cases', n, 16)
+    run.floor('phase diagram cases', n, 200)
     n = e_span(run, repo, 7 if run.tier == 'thorough' else 6)
-    run.floor('energy span orderings', n, 500)
+    run.floor('energy span orderings', n, 1000)
     run.extra['orderings'] = n
 
 
@@ -881,6 +898,19 @@ MUTANTS = [
     {'name': '1D default of G_units is kJ/mol', 'expect': ('REF.table', 'get_GoRT_1D'),
      'edits': [(P_, '    def get_GoRT_1D(self, x_name, x_values, G_units=None, **kwargs):',
                 "    def get_GoRT_1D(self, x_name, x_values, G_units='kJ/mol', **kwargs):")]},
+    # a state of several species: the coefficients paired with the species in reverse order (invisible as long as
+    # all coefficients of a state are equal)
+    {'name': 'state coefficients paired with the species in reverse', 'expect': ('REF.span', 'get_state_quantity'),
+     'edits': [(N_, '    for specie, coeff in zip(species, stoich):\n',
+                '    for specie, coeff in zip(species, list(stoich)[::-1]):\n')]},
+    # a sequence that remembers its state energies
+    {'name': 'sequence span remembers the state energies', 'expect': ('REF.span', 'Reactions.get_E_span'),
+     'edits': [(R_, '        states_G = []\n        for reaction in self.reactions:\n            for state in states:\n'
+                '                # Skip states that are not occupied\n',
+                "        states_G = getattr(self, '_states_G', None)\n"
+                '        if states_G is None:\n            states_G = self._states_G = []\n'
+                '        for reaction in (self.reactions if not states_G else []):\n            for state in states:\n'
+                '                # Skip states that are not occupied\n')]},
     # the per-species dictionary of a grid point is filled in instead of copied
     {'name': '1D grid dictionaries completed in place', 'expect': ('EFFECT.grid', 'get_GoRT_1D'),
      'edits': [(P_, '                kwargs[x_name] = x\n                GoRT[i, j] = reaction',
@@ -941,4 +971,29 @@ EQUIV = [
                 '        conditions = dict(conditions or {})\n'
                 '        conditions.update(kwargs)\n        kwargs = conditions\n'
                 '        GoRT = np.zeros(shape=(len(self.reactions), len(x_values)))\n')]},
+    # the table filled column by column through the view GoRT[:, j]; the stable phases stored one by one into an
+    # array of np.intp (an index is an integer)
+    {'name': '1D table filled through column views',
+     'edits': [(P_, '        for i, (reaction, norm_factor) in enumerate(\n'
+                '                zip(self.reactions, self.norm_factors)):\n'
+                '            for j, x in enumerate(x_values):\n'
+                '                kwargs[x_name] = x\n'
+                '                GoRT[i, j] = reaction.get_delta_GoRT(**kwargs) / norm_factor\n'
+                '\n'
+                '                # Add unit corrections\n'
+                '                if G_units is not None:\n'
+                "                    GoRT[i, j] *= c.R('{}/K'.format(G_units)) * kwargs['T']\n",
+                '        for j, x in enumerate(x_values):\n'
+                '            kwargs[x_name] = x\n'
+                '            GoRT_x = GoRT[:, j]\n'
+                '            for i, (reaction, norm_factor) in enumerate(\n'
+                '                    zip(self.reactions, self.norm_factors)):\n'
+                '                GoRT_x[i] = reaction.get_delta_GoRT(**kwargs) / norm_factor\n'
+                '            if G_units is not None:\n'
+                "                GoRT_x *= c.R('{}/K'.format(G_units)) * kwargs['T']\n")]},
+    {'name': '1D stable phases stored per column into an integer array',
+     'edits': [(P_, '        stable_phases = np.nanargmin(GoRT, axis=0)\n',
+                '        stable_phases = np.zeros(len(x_values), dtype=np.intp)\n'
+                '        for j in range(len(x_values)):\n'
+                '            stable_phases[j] = np.nanargmin(GoRT[:, j])\n')]},
 ]
